@@ -5,7 +5,7 @@ from contracts import specs
 ID = "C41"
 FRAG = "paramiko.hostkeys.HostKeys.load::whole-loop#1"
 TARGETS = [(FRAG, "two-hostnames", {}), (FRAG, "three-hostnames", {"+n": 3})]
-REPLAY = {"*": "c41.replay_load_twice"}
+REPLAY = {"*": "c41.replay_load_twice", "check": "c41.check_agrees_with_lookup"}
 
 
 def make_pre(n):
@@ -46,7 +46,36 @@ def setup(E):
     E.contracts[FRAG + "::three"] = E.contracts.pop(FRAG + "#3")
     global TARGETS
     TARGETS[:] = [FRAG, (FRAG, "three-hostnames", dict(E.contracts[FRAG + "::three"])),
-                  (HAS, "two-entries", setup_has_entry(E))]
+                  (HAS, "two-entries", setup_has_entry(E)),
+                  ("paramiko.hostkeys.HostKeys.check", "agrees-with-lookup", setup_check(E))]
+
+
+def setup_check(E):
+    """check(host, key) is DEFINED through lookup: true exactly when lookup(host) reports, for the key's type, a key with the
+    same bytes (lookup honours the first entry of each type; a host listed twice with different keys of one type has one
+    answer, and check must give the same)"""
+    E.declare_ghost(lookups="int", lk_host="str", lk_some="bool", lk_type="str", lk_key="int", lk_key_some="bool", gets="int")
+    HK = "paramiko.hostkeys.HostKeys."
+    cs = {
+        HK + "lookup": dict(params={"hostname": "str"}, returns="opt[opaque:SubDict]", modifies=[], raises={},
+                            ghost={"lookups": "ghost('lookups') + 1", "lk_host": "hostname", "lk_some": "notnone(result)"}),
+        "SubDict.get": dict(argnames=["self", "name", "default"], returns="opt[opaque:PKey]",
+                            ghost={"gets": "ghost('gets') + 1", "lk_type": "name", "lk_key": "opaque_id(result)", "lk_key_some": "notnone(result)"}),
+        "PKey.get_name": dict(argnames=["self"], returns="str", ensures=["result == fn('key_type', 'str', self)"]),
+        "PKey.asbytes": dict(argnames=["self"], returns="bytes", ensures=["result == fn('key_bytes', 'bytes', self)"]),
+    }
+    ASKED = ("ghost('lookups') == old(ghost('lookups')) + 1 and ghost('lk_host') == hostname")
+    GOT = ("ghost('gets') == old(ghost('gets')) + 1 and ghost('lk_type') == fn('key_type', 'str', key)")
+    return dict(params={"hostname": "str", "key": "opaque:PKey"}, returns="bool", raises={}, modifies=[],
+                ensures={
+                    "the_answer_comes_from_what_lookup_reports_for_this_host": ASKED,
+                    "true_only_for_the_key_lookup_reports_for_that_type":
+                        "implies(result, ghost('lk_some') and %s and ghost('lk_key_some') and"
+                        " fn('key_bytes', 'bytes', ghost('lk_key')) == fn('key_bytes', 'bytes', key))" % GOT,
+                    "false_only_when_lookup_reports_nothing_or_another_key":
+                        "implies(not result, (not ghost('lk_some')) or (%s and ((not ghost('lk_key_some')) or"
+                        " fn('key_bytes', 'bytes', ghost('lk_key')) != fn('key_bytes', 'bytes', key))))" % GOT},
+                **{"+contracts": cs})
 
 
 HAS = "paramiko.hostkeys.HostKeys._has_entry"
@@ -83,7 +112,8 @@ LEVEL_TEXT = ("Proof (real iterator semantics) that load()'s duplicate-suppressi
               "the names that are not already known with that key - for lines naming two and three hosts - so a second load "
               "of the same file appends nothing; _has_entry is verified (two stored entries) to answer true exactly when "
               "some entry lists the host with a key of the same type and bytes, i.e. it looks at every entry, not only the "
-              "first of a type.")
+              "first of a type; check(host, key) answers from what lookup(host) reports: true exactly when lookup reports, for the "
+              "key's type, a key with the same bytes (lookup is its definition, used through a contract).")
 LEVEL_NOTE = ("Bounded in the number of names per line (2, 3) and stored entries (2); unbounded in names and keys. "
               "_hostname_matches (plain / hashed names, HMAC) is an uninterpreted predicate; lookup()'s SubDict, save(), "
               "from_line/to_line (base64, parsing) are covered only by the native replay (load twice, save, reload), not by "
